@@ -1,6 +1,7 @@
 package main
 
 import (
+	"reflect"
 	"runtime"
 	"bufio"
 	"bytes"
@@ -617,6 +618,62 @@ func allocAudit(ctx *Ctx, cases []Case, ops map[string]OpDef, impl []implResult)
 		ctx.Res.Extra["alloc_bytes_per_input_byte_on_long_inputs"] = long
 	}
 	ctx.Res.Extra["alloc_audit"] = map[string]any{"cases": audited, "allowance": fmt.Sprintf("%d + %d x input bytes (inputs above 16 KiB: %d + 64 x input bytes)", allocBase, allocPerByte, allocBase), "largest_used_fraction_of_a_chunks_allowance": worst}
+}
+
+// scribble overwrites everything reachable from a value an earlier call handed out (fields, slice elements, map
+// entries) with junk: a later call must not be affected by what a caller does to an earlier result (memoised results
+// returned by pointer, shared backing arrays).
+func scribble(v any) {
+	defer func() { recover() }()
+	scribbleValue(reflect.ValueOf(v), 0)
+}
+
+func scribbleValue(v reflect.Value, depth int) {
+	if depth > 6 || !v.IsValid() {
+		return
+	}
+	switch v.Kind() {
+	case reflect.Ptr, reflect.Interface:
+		if !v.IsNil() {
+			scribbleValue(v.Elem(), depth+1)
+		}
+	case reflect.Struct:
+		for i := 0; i < v.NumField(); i++ {
+			if f := v.Field(i); f.CanSet() || f.Kind() == reflect.Ptr || f.Kind() == reflect.Slice || f.Kind() == reflect.Map {
+				scribbleValue(f, depth+1)
+			}
+		}
+	case reflect.Slice, reflect.Array:
+		for i := 0; i < v.Len() && i < 4096; i++ {
+			scribbleValue(v.Index(i), depth+1)
+		}
+	case reflect.Map:
+		for _, k := range v.MapKeys() {
+			e := v.MapIndex(k)
+			if e.Kind() == reflect.Slice || e.Kind() == reflect.Ptr {
+				scribbleValue(e, depth+1)
+			}
+		}
+		if v.Len() > 0 && v.Type().Key().Kind() == reflect.Uint16 && v.Type().Elem().Kind() == reflect.Slice {
+			v.SetMapIndex(reflect.ValueOf(uint16(0x7B7B)), reflect.ValueOf([]byte("scribble")))
+		}
+	case reflect.Uint8, reflect.Uint16, reflect.Uint32, reflect.Uint64, reflect.Uint:
+		if v.CanSet() {
+			v.SetUint(v.Uint() ^ 0xA5A5A5A5A5A5A5A5)
+		}
+	case reflect.Int8, reflect.Int16, reflect.Int32, reflect.Int64, reflect.Int:
+		if v.CanSet() {
+			v.SetInt(v.Int() ^ 0x5A5A5A5A)
+		}
+	case reflect.String:
+		if v.CanSet() {
+			v.SetString("scribble-" + v.String())
+		}
+	case reflect.Bool:
+		if v.CanSet() {
+			v.SetBool(!v.Bool())
+		}
+	}
 }
 
 func trunc(a []string) []string {
